@@ -136,8 +136,15 @@ func (s *simpleStrategy) replicaMap(tokenRing *tokenRing) tokenRingReplicas {
 	tokens := tokenRing.tokens
 	ring := make(tokenRingReplicas, len(tokens))
 
+	// the replication factor comes from the schema tables: it says how many replicas
+	// are wanted, not how many can be had
+	maxReplicas := s.rf
+	if maxReplicas > len(tokens) {
+		maxReplicas = len(tokens)
+	}
+
 	for i, th := range tokens {
-		replicas := make([]*HostInfo, 0, s.rf)
+		replicas := make([]*HostInfo, 0, maxReplicas)
 		seen := make(map[*HostInfo]bool)
 
 		for j := 0; j < len(tokens) && len(replicas) < s.rf; j++ {
@@ -207,8 +214,14 @@ func (n *networkTopology) replicaMap(tokenRing *tokenRing) tokenRingReplicas {
 	tokens := tokenRing.tokens
 	replicaRing := make(tokenRingReplicas, 0, len(tokens))
 
+	// (the factors come from the schema tables: more replicas than there are tokens
+	// cannot be had, whatever their sum says)
 	var totalRF int
 	for _, rf := range n.dcs {
+		if rf > len(tokens)-totalRF {
+			totalRF = len(tokens)
+			break
+		}
 		totalRF += rf
 	}
 
@@ -306,9 +319,11 @@ func (n *networkTopology) replicaMap(tokenRing *tokenRing) tokenRingReplicas {
 		replicaRing = append(replicaRing, hostTokens{th.token, replicas})
 	}
 
+	// every token has replicas if every datacenter of the ring is replicated to (a
+	// keyspace may also name datacenters this ring has no node in)
 	dcsWithReplicas := 0
-	for _, dc := range n.dcs {
-		if dc > 0 {
+	for dc, rf := range n.dcs {
+		if _, inRing := dcRacks[dc]; inRing && rf > 0 {
 			dcsWithReplicas++
 		}
 	}
